@@ -543,3 +543,7 @@ impl Debug for Feature {
             .finish()
     }
 }
+
+#[cfg(kani)]
+#[path = "/verif/kani/vrp-core/goal_proofs.rs"]
+mod verif_kani_proofs;
